@@ -313,6 +313,21 @@ def run(ctx):
             writes.append((codec.norm_linear(env["pos"]), expr_str(core(a[1]))[:30], codec.norm_linear(codec.linear(a[2], env))))
         elif n.get("k") == "bin" and n["op"] == "=" and "encodedKey[" in expr_str(n.child("l")).replace(" ", "") and "kindCode" in expr_str(n.child("r")):
             writes.append((codec.norm_linear(env["pos"]), "kindCode", (("1", 1),)))
+        elif n.get("k") == "bin" and n["op"] == "=" and "encodedKey[" in expr_str(n.child("l")).replace(" ", "") and "nameSize" in expr_str(n.child("r")) and ">>" in expr_str(n.child("r")):
+            # the prefix written byte by byte: for (i = 0; i != 4; ++i) encodedKey[pos + i] = char(nameSize >> (8 * i))
+            lp = next((a_ for a_ in c3.ancestors(n) if a_.get("k") == "for"), None)
+            bound = None
+            if lp is not None and "c" in lp:
+                cc = core(lp.child("c"))
+                if cc is not None and cc.get("k") == "bin" and cc.get("op") in ("!=", "<"):
+                    bound = (codec.linear(cc.child("r")) or {}).get(1)
+            plain = lambda t_: re.sub(r"\((\w+)\)", r"\1", re.sub(r"cast<[^<>]*(<[^<>]*>)?[^<>]*>", "", t_))
+            shift_ok = "8 * i" in plain(expr_str(n.child("r"))) or "i * 8" in plain(expr_str(n.child("r")))
+            idx_ok = "pos + i" in plain(expr_str(n.child("l"))) or "i + pos" in plain(expr_str(n.child("l")))
+            if bound == 4 and shift_ok and idx_ok:
+                writes.append((codec.norm_linear(env["pos"]), "(&nameSize)", (("1", 4),)))
+            else:
+                writes.append((codec.norm_linear(env["pos"]), "bytes of nameSize (bound %s)" % bound, None))
     want = [((), "kindCode", (("1", 1),)), ((("1", 1),), "(&nameSize)", (("1", 4),)), ((("1", 5),), "name.data()", (("nameSize", 1),)),
             ((("1", 5), ("nameSize", 1)), None, (("dataSize", 1),))]
     ok = len(writes) == 4 and all(w[0] == x[0] and (x[1] is None or w[1] == x[1]) and w[2] == x[2] for w, x in zip(writes, want))
@@ -323,6 +338,20 @@ def run(ctx):
         f = prog.fn("BuildKey::" + nm)
         mc = f.calls("memcpy")
         okm = len(mc) == 1 and "key.data()[1]" in expr_str(arg_nodes(mc[0])[1]).replace("cast<unsigned long>", "") and core(arg_nodes(mc[0])[2]).get("v") == 4
+        if not mc:
+            # the prefix read through a member helper (`uint32_t nameSize = getNameSize();`): the helper reads 4 bytes from key.data() + 1,
+            # byte i shifted by 8*i (whether each byte is zero-extended is R-BYTE-ASSEMBLY's business)
+            for d in f.nodes:
+                if d.get("k") == "decl":
+                    for v in d["vars"]:
+                        if v["n"] == "nameSize" and "init" in v:
+                            hc = core(f.nodes[v["init"]])
+                            h = prog.functions.get(hc.get("fk")) if hc is not None and hc.get("k") == "call" and hc.get("fk") else None
+                            if h is not None and h.cls == f.cls:
+                                txt = re.sub(r"\((\w+)\)", r"\1", re.sub(r"cast<[^<>]*(<[^<>]*>)?[^<>]*>", "", " ".join(expr_str(x) for x in h.nodes if x.get("k") in ("decl", "bin"))))
+                                loops = [x for x in h.nodes if x.get("k") == "for" and "c" in x]
+                                b4 = any((codec.linear(core(x.child("c")).child("r")) or {}).get(1) == 4 for x in loops if core(x.child("c")) is not None and core(x.child("c")).get("k") == "bin")
+                                okm = ("key.data() + 1" in txt or "key.data()[1" in txt) and ("8 * i" in txt or "i * 8" in txt) and b4
         ret = [n for n in f.nodes if n.get("k") == "return"][0]
         cons = [x for x in ret.walk() if x.get("k") == "construct" and len(x.get("args", [])) == 2]
         off = ln = None
@@ -339,7 +368,7 @@ def run(ctx):
                     if d.get("k") == "decl":
                         for v in d["vars"]:
                             if v["did"] == lv.get("did") and "init" in v:
-                                env2[v["n"]] = codec.linear(f.nodes[v["init"]])
+                                env2[v["n"]] = codec.linear(f.nodes[v["init"]]) or {v["n"]: 1}
             ln = codec.norm_linear(codec.linear(a[1], env2))
         if nm in name_acc:
             okk = okm and off == (("1", 5),) and ln == (("nameSize", 1),)
@@ -363,6 +392,38 @@ def run(ctx):
             okk = off == 1 and ln == (("1", -1), ("key.size()", 1))
             desc = "offset %s length %s" % (off, ln)
         r.check(okk, "BuildKey::%s|offsets" % nm, "", "simple key name read with %s" % desc, f)
+
+    rb = rep.rule("R-BYTE-ASSEMBLY", "where a wider integer is assembled from the bytes of a buffer (`x |= T(p[i]) << k`, `+`), every byte is zero-extended: it "
+                                     "goes through unsigned char / uint8_t before it is widened — a plain `char` sign-extends, and any byte >= 0x80 then sets all higher bits", floor=1)
+    n_asm = 0
+    for f in prog.functions.values():
+        if f.is_lambda or not relpath(f.file).startswith(("include/llbuild/", "lib/")):
+            continue
+        for n in f.nodes:
+            if n.get("k") != "bin" or n.get("op") != "<<":
+                continue
+            l = n.child("l")
+            # the operand being shifted: look through parentheses and widening casts down to the byte that is read
+            chain = []
+            x = l
+            while x is not None and x.get("k") in ("cast", "paren", "construct"):
+                chain.append(x)
+                x = x.child("e") if x.get("k") != "construct" else (arg_nodes(x)[0] if arg_nodes(x) else None)
+            if x is None or x.get("k") not in ("index", "un", "call") or not chain:
+                continue
+            src_t = (x.ctype() or "")
+            if src_t.replace("const ", "") not in ("char", "signed char", "unsigned char", "uint8_t"):
+                continue
+            if "ostream" in (n.ctype() or "") or "raw_" in (n.ctype() or ""):
+                continue
+            n_asm += 1
+            signed_src = src_t.replace("const ", "") in ("char", "signed char")
+            through_unsigned = any((c_.ctype() or "").replace("const ", "") in ("unsigned char", "uint8_t") for c_ in chain)
+            site = "%s|%s" % (f.name.split("::")[-1] if not f.cls else f.cls.split("::")[-1] + "::" + f.name.split("::")[-1], expr_str(x)[:30])
+            rb.check(not signed_src or through_unsigned, site, "", "byte `%s` of type %s is widened to %s without going through unsigned char: a byte >= 0x80 sign-extends into the "
+                     "assembled value" % (expr_str(x)[:40], src_t, (chain[0].ctype() or "?")), f, n)
+    if n_asm < 1:
+        raise AnalysisBroken("R-BYTE-ASSEMBLY: no byte-assembly site found (BinaryDecoder::read16 is expected)")
 
     rw = rep.rule("R-CODEC-WIDTH", "no coder narrows what it codes: the integer type handed to write()/read() is at least as wide as the member it stands for "
                                    "(an enumeration may be narrowed to a type that holds all its enumerators); a count written through a narrower local loses "
@@ -536,4 +597,7 @@ VARIANTS = [
          new="    return isDirectoryContents() || isStaleFileRemoval();", expect=("R-KIND-PAYLOAD", "makeFilteredDirectoryContents")),
     dict(name="benign-payload-predicate-by-kind-compare", file="include/llbuild/BuildSystem/BuildValue.h", old="    return isDirectoryTreeSignature() || isDirectoryTreeStructureSignature() ||\n        kind == Kind::SuccessfulCommandWithOutputSignature;",
          new="    return kind == Kind::DirectoryTreeSignature || kind == Kind::DirectoryTreeStructureSignature ||\n        kind == Kind::SuccessfulCommandWithOutputSignature;", expect=None),
+    dict(name="key-length-prefix-read-with-sign-extension", file="include/llbuild/BuildSystem/BuildKey.h", old="  StringRef getCustomTaskName() const {\n    assert(isCustomTask());\n    uint32_t nameSize;\n    memcpy(&nameSize, &key.data()[1], sizeof(uint32_t));",
+         new="  StringRef getCustomTaskName() const {\n    assert(isCustomTask());\n    uint32_t nameSize = 0;\n    for (unsigned i = 0; i != sizeof(uint32_t); ++i)\n      nameSize |= uint32_t(key.data()[1 + i]) << (8 * i);",
+         expect=("R-BYTE-ASSEMBLY", "getCustomTaskName")),
 ]
